@@ -11,6 +11,8 @@ package bexpr
 //go:generate goimports -w grammar/grammar.go
 
 import (
+	"regexp"
+
 	"github.com/hashicorp/go-bexpr/grammar"
 	"github.com/mitchellh/pointerstructure"
 )
@@ -46,6 +48,8 @@ func CreateEvaluator(expression string, opts ...Option) (*Evaluator, error) {
 		return nil, err
 	}
 
+	compileRegexps(ast.(grammar.Expression))
+
 	eval := &Evaluator{
 		ast:                     ast.(grammar.Expression),
 		tagName:                 parsedOpts.withTagName,
@@ -55,6 +59,28 @@ func CreateEvaluator(expression string, opts ...Option) (*Evaluator, error) {
 	}
 
 	return eval, nil
+}
+
+// compileRegexps caches the compiled form of every valid regular expression
+// literal in the syntax tree. It runs once, before the Evaluator is shared, so
+// that Evaluate never writes to the tree. Invalid patterns are left alone and
+// reported by Evaluate when (and if) they are reached, as before.
+func compileRegexps(ast grammar.Expression) {
+	switch node := ast.(type) {
+	case *grammar.UnaryExpression:
+		compileRegexps(node.Operand)
+	case *grammar.BinaryExpression:
+		compileRegexps(node.Left)
+		compileRegexps(node.Right)
+	case *grammar.CollectionExpression:
+		compileRegexps(node.Inner)
+	case *grammar.MatchExpression:
+		if (node.Operator == grammar.MatchMatches || node.Operator == grammar.MatchNotMatches) && node.Value != nil {
+			if re, err := regexp.Compile(node.Value.Raw); err == nil {
+				node.Value.Converted = re
+			}
+		}
+	}
 }
 
 // Evaluate attempts to match the configured expression against the supplied datum.
